@@ -335,6 +335,7 @@ func runC08(c *explore.Ctx) {
 			if c.Replay && c.ReplayScope != scope {
 				return true
 			}
+			c.Begin(scope, 0)
 			batch := []gen.Doc{{}, {}}
 			var t0, t1 []gen.Term
 			for ti, x := range v {
